@@ -423,6 +423,14 @@ func c28Mutations(r *verifx.Rng, base *verifx.Wire, spec *verifx.SigSpec) []c28M
 				w.Body = []byte(verifx.FlipHex(string(w.Body), j))
 				return true
 			})
+			add("trailer-sig-name", func(w *verifx.Wire) bool { // the signature line renamed: the trailer is no longer authenticated
+				i := strings.Index(string(w.Body), "x-amz-trailer-signature:")
+				if i < 0 {
+					return false
+				}
+				w.Body[i+len("x-amz-trailer-signatur")] = 'q'
+				return true
+			})
 			add("trailer-sig-flip", func(w *verifx.Wire) bool {
 				i := strings.Index(string(w.Body), "x-amz-trailer-signature:")
 				if i < 0 {
